@@ -89,7 +89,7 @@ def _kept(s, field):
     return _same_opt(getattr(s.old.loader, field), getattr(s.loader, field))
 
 
-@contract('gemato/profile.py', 'DefaultProfile.set_loader_options', props=['C19'])
+@contract('gemato/profile.py', 'DefaultProfile.set_loader_options', props=['C19', 'C13'])
 def _(c):
     c.params(self=Obj('DefaultProfile'), loader=Obj('ManifestRecursiveLoader'))
     c.returns(NoneT)
@@ -111,7 +111,7 @@ def _is_default(x, f):
     return S.And(S.Not(S.opt_none(x)), S.Eq(v, 'gz'))
 
 
-@contract('gemato/profile.py', 'EbuildRepositoryProfile.set_loader_options', props=['C19'])
+@contract('gemato/profile.py', 'EbuildRepositoryProfile.set_loader_options', props=['C19', 'C13'])
 def _(c):
     c.params(self=EbuildProfiles, loader=Obj('ManifestRecursiveLoader'))
     c.returns(NoneT)
